@@ -155,6 +155,7 @@ var seedExpectations = []seedExpect{
 	{"spirv-pushconstant-wrapper", "C02", "space.sameclass", "globalNeedsWrapper"},
 	{"push-constant-spelling", "C03", "space.sameclass", "writeGlobalVariable"},
 	{"glsl-texture-argument-type", "C05", "imagetype.viaglobal", "resolveImageType"},
+	{"glsl-texture-argument-type", "C15", "imagetype.viaglobal", "resolveImageType"},
 	{"hlsl-texture-argument-type", "C03", "imagetype.viaglobal", "getStorageLoadHelper"},
 	{"glsl-reserved-prefix", "C16", "names.genformat", "reserved-prefix:gl_"},
 	{"user-function-shadow", "C08", "call.usershadow", "lowerCall"},
